@@ -28,8 +28,10 @@ SYMPTOM_NAME = dict(D9="relay_before_snapshot", D13="module_state_split", D15="s
 
 
 def cfg(spec, vikja, progset, invs, extra=""):
-    return ("SPECIFICATION %s\nCONSTANTS\n Conns = {1,2,3}\n Vikja = %s\n Serial = FALSE\n ProgSet %s\n%s%s" % (
-        spec, "TRUE" if vikja else "FALSE", progset, ("INVARIANTS " + " ".join(invs) + "\n") if invs else "", extra))
+    """vikja: False / True (the vikja module) / "odal" """
+    return ("SPECIFICATION %s\nCONSTANTS\n Conns = {1,2,3}\n Vikja = %s\n Odal = %s\n Serial = FALSE\n ProgSet %s\n%s%s" % (
+        spec, "TRUE" if vikja is True else "FALSE", "TRUE" if vikja == "odal" else "FALSE", progset,
+        ("INVARIANTS " + " ".join(invs) + "\n") if invs else "", extra))
 
 
 def write_progs(d, progs, gen=False):
@@ -169,7 +171,7 @@ def stage(work, tier, seed, variants=(False, True), witnesses=True):
     n_rprog = 40 if tier == "quick" else 400        # random programs
 
     for vikja in variants:
-        vt = "v" if vikja else "n"
+        vt = "o" if vikja == "odal" else ("v" if vikja else "n")
         cat = rc.catalogue(vikja)
         progs = [p for _, p in cat]
         if tier != "quick":
@@ -195,6 +197,8 @@ def stage(work, tier, seed, variants=(False, True), witnesses=True):
         for sym in (SYMPTOMS if witnesses else []):
             if sym in ("D13", "D15", "D17", "D18") and not vikja:
                 continue
+            if sym in ("D13", "D17") and vikja == "odal":
+                continue            # (only the owner of an entity can give it an asset: no two writers of one key)
             rr = tlc_with_progs(work, "rcw-%s-%s" % (sym, vt), progs,
                                 cfg("Spec", vikja, "<- TheProgs", []) + "INVARIANT W_%s\n" % sym, workers=NCPU, timeout=900)
             if "violated" in rr and rr.get("ce"):
@@ -211,7 +215,7 @@ def stage(work, tier, seed, variants=(False, True), witnesses=True):
         gd = work.path("rcgen-" + vt, "x")[:-2]
         rg = tlc_with_progs(work, "rcgen-" + vt, progs, cfg("GenSpec", vikja, "<- TheProgs", ["Export"], "CHECK_DEADLOCK FALSE\n"), gen=True,
                             workers=1, timeout=900, env=dict(VERIF_GEN=gd), dump=False,
-                            extra=["-simulate", "num=%d" % n_gen, "-depth", "400", "-seed", str(seed + (1 if vikja else 0))])
+                            extra=["-simulate", "num=%d" % n_gen, "-depth", "400", "-seed", str(seed + (2 if vikja == "odal" else 1 if vikja else 0))])
         if "error" in rg or "violated" in rg:
             raise Inconclusive("RelayConc behaviour generator failed: %s" % (rg.get("error") or rg.get("violated")))
         gfiles = sorted(glob.glob(os.path.join(gd, "s*.ndjson")))
